@@ -79,7 +79,7 @@ def file_item(out, item, rep, tmpdir):
             emit(out, iid, "v2_write_pdb", rep, pdb_text, len(df) > 0)
         except Exception as e:  # noqa: BLE001
             emit(out, iid, "v2_error", rep, "raised %s: %s" % (type(e).__name__, e), False)
-    if item.get("lib"):
+    if item.get("lib") and (rep == 0 or item.get("lib_repeat")):
         lib_outputs(out, iid, rep, path)
     if item.get("cli") and (rep == 0 or item.get("cli_repeat")):
         for flag, kind in (("-a", "cli_all"), ("-e", "cli_extended"), ("", "cli_default")):
